@@ -1,6 +1,6 @@
 (* Props/C05.v -- Initial-condition, normalisation and observation terms match their definitions. *)
 From Coq Require Import List Arith Bool Lia QArith Qcanon Field Ring Field_theory.
-From JV Require Import Kit.Field Model.M_lossterms Proofs.P_lossterms.
+From JV Require Import Kit.Field Kit.Tx Model.M_lossterms Proofs.P_lossterms Proofs.P_reduce Inst.I_reduce.
 Import ListNotations.
 Open Scope nat_scope.
 
@@ -42,6 +42,30 @@ Proof. intros Hi Hl. unfold diff_rows.
   change [] with (f ([], [])) at 1. rewrite map_nth. unfold f. rewrite combine_nth by exact Hl. reflexivity. Qed.
 End C05.
 
+(* ---- Regenerated: what the source says today ----
+   The reduction expressions of initial_condition_apply (both network kinds), of the initial-condition
+   block of LossODE.evaluate, of normalization_loss_apply (pointwise networks, stationary and not) and
+   of observations_loss_apply, translated from the source to tensor expressions, denote the model's
+   terms for every batch, component count and weight shape; observations are sliced by
+   slice_solution and then by obs_slice. *)
+Lemma regenerated_ic_reduce_ok (F : fld) w (u0 ut0 : list (list F)) :
+  tsem F [T2 u0; T2 ut0; wten F w] g_ic_reduce_pinn = Some (T0 (ic_term F w u0 ut0)) /\ g_ic_reduce_spinn = g_ic_reduce_pinn.
+Proof. split; [exact (diff_expected_sem F w u0 ut0)|reflexivity]. Qed.
+Lemma regenerated_ode_ic_reduce_ok (F : fld) w (ut0 : list (list F)) (u0 : list F) :
+  tsem F [T2 ut0; T1 u0; wten F w] g_ode_ic_reduce = Some (T0 (ode_ic_term F w ut0 u0)).
+Proof. exact (ode_ic_expected_sem F w ut0 u0). Qed.
+Lemma regenerated_norm_reduce_ok (F : fld) w L :
+  (forall m, tsem F [T2 m; T0 L; T0 w] g_norm_reduce_statio = Some (T0 (norm_term_statio F w L m))) /\
+  (forall ms, tsem F [T3 ms; T0 L; T0 w] g_norm_reduce_nonstatio = Some (T0 (norm_term_nonstatio F w L ms))).
+Proof. split; [exact (norm_statio_expected_sem F w L)|exact (norm_nonstatio_expected_sem F w L)]. Qed.
+Lemma regenerated_obs_reduce_ok (F : fld) w (pred vals : list (list F)) :
+  tsem F [T2 pred; T2 vals; wten F w] g_obs_reduce = Some (T0 (obs_term F w pred vals)) /\ g_obs_slices = true.
+Proof. split; [exact (diff_expected_sem F w pred vals)|reflexivity]. Qed.
+
+Print Assumptions regenerated_ic_reduce_ok.
+Print Assumptions regenerated_ode_ic_reduce_ok.
+Print Assumptions regenerated_norm_reduce_ok.
+Print Assumptions regenerated_obs_reduce_ok.
 Print Assumptions C05_initial_condition_pde.
 Print Assumptions C05_initial_condition_ode.
 Print Assumptions C05_normalisation_stationary.
